@@ -11,7 +11,7 @@ CFG = {
              "panics and the iterator invariant is kept (no size hypothesis; the two rewinding calls need "
              "data <= i64::MAX and are outside C01's list); decode / decode_rect never reach a panic operation for "
              "any family, colour, size, rect, limit, stream, and all their lengths are <= isize::MAX; output "
-             "addresses lie inside the view (per-pixel and block families; bi-planar partial); a full decode whose "
+             "addresses lie inside the view (per-pixel, block and bi-planar families); a full decode whose "
              "surface contains the first unreadable offset, and any call with a hard reader error inside the "
              "surface, ends in an I/O error, never in Ok. Tied to the code on every run by a hostile-input "
              "differential run (structured and mutated headers, truncations at every offset, option matrix, fault "
